@@ -434,7 +434,17 @@ func (e *Engine) simple(st *State, fr *Frame, ins ssa.Instruction) bool {
 			fr.env[x] = Field(v, x.Field)
 		}
 	case *ssa.IndexAddr:
-		fr.env[x] = IndexAddr(e.value(st, fr, x.X), e.exactIndex(st, e.value(st, fr, x.Index)))
+		base, idx := e.value(st, fr, x.X), e.exactIndex(st, e.value(st, fr, x.Index))
+		fr.env[x] = IndexAddr(base, idx)
+		if e.Cfg.IndexEvents {
+			if _, isSlice := x.X.Type().Underlying().(*types.Slice); isSlice {
+				inb := e.Eval(st.facts, Bin("<", idx, e.LenTerm(st, base))) == TriTrue && e.Eval(st.facts, Bin("<", idx, ConstInt(0))) == TriFalse
+				ev := &Event{Kind: "index", Instr: x, Fn: fr.fn, Depth: fr.depth, Pos: e.Pos(x), Addr: base, Key: idx, Decided: inb, Site: e.site(fr, x)}
+				if !e.deliver(st, ev) {
+					return false
+				}
+			}
+		}
 	case *ssa.Index:
 		v := expandZero(e.value(st, fr, x.X))
 		i := e.exactIndex(st, e.value(st, fr, x.Index))
